@@ -406,6 +406,13 @@ def ob_inv_wrapper(ctx):
 
 # ---------------------------------------------------------------- exp
 def ob_exp(ctx):
+    try: r = ob_exp_special(ctx)
+    except (Unsupported, AttributeError, TypeError, KeyError, IndexError, z3.Z3Exception) as e: r = inconc('%s: %s' % (type(e).__name__, e), structural=True)
+    if r['status'] == 'inconclusive' and (r.get('structural') or 'loop header not reached' in r.get('detail', '') or 'exp paths' in r.get('detail', '')):
+        g = exp_generic(ctx); g['detail'] = '[loop shape not the textbook one (%s); structure-independent check] %s' % (r['detail'][:100], g.get('detail', '')); return g
+    return r
+
+def ob_exp_special(ctx):
     w = core.world(ctx.bdir, MODS); w.hooks = dict(w.base_hooks)
     f = w.funcs[EXP]; header = [lab for lab in f.order if any(ins.op == 'phi' for ins in f.blocks[lab])][0]
     POW = z3.Function('POW', z3.IntSort(), z3.IntSort(), z3.IntSort())
@@ -469,6 +476,134 @@ def ob_exp(ctx):
     fv = sym(ctx, CFG, 'Goldilocks', 'exp', '%s (%s, uint64_t)' % (E, E)); o = it.call(fv, [B0, E0])
     if not (z3.eq(seen['a'][1], B0) and z3.eq(seen['a'][2], E0) and str(o) == 'exp_out'): return viol('exp/wrapper', 'exp(base,exp) does not forward to exp(result,base,exp)', replay=dict(event='exp wrapper'))
     return ok('entry (1,B,E); %d back-edge / %d exit path(s) preserve result·POW(base,exp) ≡ POW(B,E); exponent 0 returns 1' % (nb, ne), sample=dict(part='exp', back=nb, exit=ne))
+
+# ---------------------------------------------------------------- exp, structure-independent fallback
+def exp_generic(ctx):
+    """square-and-multiply loops of any shape whose state contains an accumulator A, a running base V and a remaining exponent G (a state word, or E >> counter)
+       with   A·V^G ≡ B^E (mod p)   at the loop header: the roles are read off concrete header states, then one iteration of the real body from a
+       havocked header (small counters enumerated) must preserve  A·POW(V,G)  with  V' ≡ V², G' = G >> 1, and every exit must return A·POW(V,G)."""
+    w = core.world(ctx.bdir, MODS); w.hooks = dict(w.base_hooks)
+    f = w.funcs[EXP]; pos = {lab: i for i, lab in enumerate(f.order)}
+    heads = [lab for lab in f.order if any(ins.op == 'phi' for ins in f.blocks[lab]) and any(pos.get(l, -1) >= pos[lab] for ins in f.blocks[lab] if ins.op == 'phi' for v, l in ins.inc)]
+    if not heads: return inconc('generic exp check: no loop header in Goldilocks::exp')
+    def allocas(env): return {v.obj.name: v.obj for v in env.values() if isinstance(v, Ptr) and v.obj is not None and v.obj.kind == 'alloca'}
+    def snapshot(newv, env, res, conc_only=True):
+        d = {('phi', k): v for k, v in newv.items()}
+        for nm, o in allocas(env).items():
+            for idx, cv in o.cells.items(): d[('mem', nm, idx)] = cv
+        d[('res', 0)] = res.cells.get(0)
+        return {k: v for k, v in d.items() if (is_c(v) if conc_only else (v is not None and not isinstance(v, (Ptr, float)) and v is not POISON))}
+    rng = ctx.rng('C10expgen'); samples = {h: [] for h in heads}
+    BE = [(b, e) for b in (2, 3, 7, P - 1, P + 2, 2**64 - 1, rng.getrandbits(64)) for e in (1, 2, 3, 5, 6, 12, 255, 2**32 + 5, 2**63 + 1, 2**64 - 1, rng.getrandbits(64), rng.getrandbits(20))]
+    for (b, e) in BE:
+        w.reset(); w.hooks = dict(w.base_hooks); it = Interp(w); res = Obj(8, 'result', 8); cnt = {h: 0 for h in heads}
+        def mk(h):
+            def lc(it_, prev, newv, env):
+                cnt[h] += 1
+                if cnt[h] <= 6: samples[h].append((b, e, snapshot(newv, env, res)))
+                return newv
+            return lc
+        it.loopcut = {(EXP, h): mk(h) for h in heads}
+        try: it.call(EXP, [Ptr(res, 0), b, e])
+        except (Violation, Terminated, Unsupported) as ex: return inconc('generic exp check: concrete run exp(%#x,%d) ended with %s' % (b, e, ex))
+        if not is_c(res.cells.get(0)) or res.cells[0] % P != pow(b, e, P): return confirm_native(ctx, 'exp', 'concrete interpretation of exp(%#x, %d) returns %s' % (b, e, res.cells.get(0)), {'b': b, 'e': e})
+    header = max(heads, key=lambda h: len(samples[h])); S = samples[header]
+    if len(S) < 20: return inconc('generic exp check: loop header reached only %d times in the concrete runs' % len(S))
+    comps = sorted(k for k in S[0][2] if all(k in sn for _, _, sn in S))
+    small = [c for c in comps if all(sn[c] <= 64 for _, _, sn in S)]
+    roles = None
+    for A in comps:
+        for V in comps:
+            if V == A or A in small or V in small: continue
+            for G in [('c', c) for c in comps if c not in (A, V)] + [('shr', c) for c in small]:
+                def gval(e, sn): return sn[G[1]] if G[0] == 'c' else (e >> sn[G[1]])
+                if all((sn[A] * pow(sn[V], gval(e, sn), P) - pow(b, e, P)) % P == 0 for b, e, sn in S) and len({gval(e, sn) for b, e, sn in S}) > 5: roles = (A, V, G); break
+            if roles: break
+        if roles: break
+    if roles is None: return inconc('generic exp check: no (accumulator, base, remaining exponent) roles with A·V^G ≡ B^E among the loop state %s' % (comps,))
+    A, V, G = roles
+    POW = z3.Function('POW', z3.IntSort(), z3.IntSort(), z3.IntSort())
+    B0 = core.bv64('B'); E0 = core.bv64('E'); HA = core.bv64('acc_h'); HV = core.bv64('base_h'); HG = core.bv64('exp_h')
+    counters = [G[1]] if G[0] == 'shr' else []
+    pw = {ins.res: w.rty(ins.ty).bits for ins in f.blocks[header] if ins.op == 'phi' and w.rty(ins.ty).kind == 'int'}
+    def run(mode, cv=None):
+        def go(it):
+            asm = []; contracts(w, asm); st = {'n': 0}; res = Obj(8, 'result', 8)
+            def put(c, val, newv, env):
+                if c[0] == 'phi': newv[c[1]] = val if pw.get(c[1], 64) == 64 or is_c(val) else z3.Extract(pw[c[1]] - 1, 0, val)
+                elif c[0] == 'mem': allocas(env)[c[1]].cells[c[2]] = val
+                else: res.cells[0] = val
+            def lc(it_, prev, newv, env):
+                st['n'] += 1
+                if mode == 'entry' or st['n'] == 2: raise LoopCut(snapshot(newv, env, res, conc_only=False))
+                newv = dict(newv)
+                for k in list(newv):        # every other loop-carried value is arbitrary as well
+                    if ('phi', k) not in (A, V) + ((G[1],) if True else ()): newv[k] = z3.BitVec('h_other_' + k.strip('%'), pw.get(k, 64))
+                put(A, HA, newv, env); put(V, HV, newv, env)
+                if G[0] == 'c': put(G[1], HG, newv, env)
+                else: put(G[1], cv, newv, env)
+                return newv
+            it.loopcut = {(EXP, header): lc}
+            try:
+                it.call(EXP, [Ptr(res, 0), B0, E0]); return ('exit', res.cells.get(0), asm, st['n'])
+            except LoopCut as e: return ('back', e.vals, asm, st['n'])
+        return explore(w, go)
+    def gterm(vals, cvv):
+        """remaining exponent as a 64-bit term for a state: the state word, or E >> counter"""
+        if G[0] == 'c': return tobv(vals[G[1]], 64)
+        c = vals[G[1]] if not is_c(cvv) else cvv
+        if not is_c(c): raise Unsupported('symbolic counter')
+        return z3.LShR(E0, bvv(c, 64)) if c < 64 else bvv(0, 64)
+    def axioms_at(bt, gt):
+        def ax(tr):
+            b = tr.val(bt); e = tr.val(gt); bb = (b * b) % P; hb = e / 2
+            return z3.And(z3.Implies(e == 0, POW(b % P, e) == 1), z3.Implies(z3.And(e > 0, hb == 0), POW(b % P, e) == b % P),
+                          z3.Implies(z3.And(e > 0, hb > 0, e % 2 == 1), (POW(b % P, e) - b * POW(bb, hb)) % P == 0),
+                          z3.Implies(z3.And(e > 0, hb > 0, e % 2 == 0), (POW(b % P, e) - POW(bb, hb)) % P == 0))
+        return ax
+    ONE = [dict(limb_min=0, abstract=False, logic=None, share=1.0)]
+    nq = 0; nb = ne = 0
+    # entry
+    for p_ in run('entry'):
+        if p_.status != 'ok': return confirm_native(ctx, 'exp', 'exp before its loop: %s' % p_.result, path_model(p_.pc))
+        kind, vals, asm, narr = p_.result
+        if kind == 'exit':
+            r = smt.prove(lambda tr: (tr.val(tobv(vals, 64)) - POW(tr.val(B0) % P, tr.val(E0))) % P == 0, assumptions=list(p_.pc) + asm + [axioms_at(B0, E0)], timeout=60, variants=ONE, bitprecise=False); nq += 1
+            if r.status == 'sat': return confirm_native(ctx, 'exp', 'exp returns without entering its loop with a value that is not B^E', r.model)
+            if r.status != 'unsat': return inconc('generic exp check: early return: %s' % r.status)
+            continue
+        try: g0 = gterm(vals, None)
+        except (Unsupported, KeyError): return inconc('generic exp check: entry state incomplete')
+        r = smt.prove(lambda tr: z3.And((tr.val(tobv(vals[A], 64)) - 1) % P == 0, (tr.val(tobv(vals[V], 64)) - tr.val(B0)) % P == 0, tr.val(g0) == tr.val(E0)), assumptions=list(p_.pc) + asm, timeout=60, bitprecise=False); nq += 1
+        if r.status == 'sat': return confirm_native(ctx, 'exp', 'exp does not enter its loop with (accumulator, base, remaining exponent) = (1, B, E)', r.model)
+        if r.status != 'unsat': return inconc('generic exp check: entry: %s' % r.status)
+    # step
+    for cv in (range(0, 65) if counters else [None]):
+        gH = HG if G[0] == 'c' else (z3.LShR(E0, bvv(cv, 64)) if cv < 64 else bvv(0, 64))
+        for p_ in run('step', cv):
+            if p_.status != 'ok': return confirm_native(ctx, 'exp', 'exp loop body: %s' % p_.result, path_model(p_.pc))
+            kind, vals, asm, narr = p_.result
+            if narr == 0: continue
+            base = list(p_.pc) + asm + [axioms_at(HV, gH)]
+            feas = smt.prove(lambda tr: z3.BoolVal(False), assumptions=list(p_.pc) + asm, timeout=20, bitprecise=False); nq += 1
+            if feas.status == 'unsat': continue
+            if kind == 'back':
+                nb += 1
+                try: a2 = tobv(vals[A], 64); v2 = tobv(vals[V], 64); g2 = gterm(vals, None)
+                except (Unsupported, KeyError) as ex: return inconc('generic exp check: back-edge state incomplete (%s)' % ex)
+                def goal(tr):
+                    b = tr.val(HV); e = tr.val(gH); bb = (b * b) % P
+                    return z3.And(tr.val(g2) == e / 2, (tr.val(v2) - b * b) % P == 0,
+                                  z3.Implies(tr.val(v2) % P == bb, (tr.val(a2) * POW(tr.val(v2) % P, tr.val(g2)) - tr.val(HA) * POW(b % P, e)) % P == 0))
+            else:
+                ne += 1; r2 = tobv(vals, 64)
+                def goal(tr): return (tr.val(r2) - tr.val(HA) * POW(tr.val(HV) % P, tr.val(gH))) % P == 0
+            r = smt.prove(goal, assumptions=base, timeout=90, variants=ONE, bitprecise=False); nq += 1
+            if r.status == 'sat': return confirm_native(ctx, 'exp', 'exp loop body does not preserve accumulator·POW(base, remaining exponent) from state %s' % r.model, r.model)
+            if r.status != 'unsat': return inconc('generic exp check: %s edge%s: %s' % (kind, '' if cv is None else ' (counter %d)' % cv, r.info[-160:]))
+    if not (nb and ne): return inconc('generic exp check: %d back-edge and %d exit paths' % (nb, ne))
+    return ok('structure-independent check: roles accumulator=%s base=%s remaining exponent=%s read off %d concrete header states; entry (1,B,E); %d back-edge / %d exit path(s) preserve accumulator·POW(base, remaining); %d queries'
+              % (A, V, (G[1] if G[0] == 'c' else 'E >> %s' % (G[1],)), len(S), nb, ne, nq), sample=dict(part='exp-generic', roles=[str(A), str(V), str(G)]))
 
 def path_model(pc):
     s = z3.Solver(); s.set('timeout', 20000); s.add(pc)
